@@ -463,6 +463,7 @@ class Extract(object):
         if not (isinstance(val, Adt) and val.name == "std::result::Result" and val.variant == 0):
             raise Inconclusive("hyphen parser did not return Ok on the success path: %r" % (val,))
         sp = it.ret_span.get(key)
+        it.last_hyphen_value = val.fields[0]
         return self.cell_of(it, val.fields[0]), (prog.span_str(sp) if sp else None), it
 
 
